@@ -260,6 +260,11 @@ func SetContentType(w http.ResponseWriter, ct string) {
 	if ct == "application/xml" {
 		suffix = "+xml"
 	}
+	if i := strings.Index(h, ";"); i >= 0 {
+		// the suffix belongs to the media type, not to its parameters
+		w.Header().Set("Content-Type", strings.TrimSpace(h[:i])+suffix+h[i:])
+		return
+	}
 	w.Header().Set("Content-Type", h+suffix)
 }
 
